@@ -7,16 +7,153 @@
 package client
 
 import (
+	"bytes"
 	"crypto/tls"
 	"encoding/json"
 	"fmt"
 	"io"
+	mrand "math/rand"
 	"net/http"
 	"net/http/httptest"
 	"os"
+	"strings"
 	"testing"
 	"time"
 )
+
+// ---- HTTP response cache (model NutsModel/C19/HttpCache.lean): the REAL CachingRoundTripper over a stub transport
+
+type c19CacheReq struct {
+	URL       string `json:"url"`
+	Size      int    `json:"size"`
+	Age       int    `json:"age"`       // max-age in seconds (multiples of 60: the order of the expiry list does not depend on how long the run takes)
+	Cacheable bool   `json:"cacheable"` // false: Cache-Control: no-store
+	Expired   bool   `json:"expired"`   // Expires one hour before Date: in the cache, but expired on arrival
+}
+
+type c19Origin struct {
+	next  c19CacheReq
+	calls int
+}
+
+func (t *c19Origin) RoundTrip(req *http.Request) (*http.Response, error) {
+	t.calls++
+	h := http.Header{}
+	switch {
+	case !t.next.Cacheable:
+		h.Set("Cache-Control", "no-store")
+	case t.next.Expired:
+		d := time.Now().UTC()
+		h.Set("Date", d.Format(http.TimeFormat))
+		h.Set("Expires", d.Add(-time.Hour).Format(http.TimeFormat))
+	default:
+		h.Set("Cache-Control", fmt.Sprintf("max-age=%d", t.next.Age))
+	}
+	return &http.Response{StatusCode: 200, Header: h, Body: io.NopCloser(bytes.NewReader(make([]byte, t.next.Size))), Request: req}, nil
+}
+
+// c19CacheSeq runs one sequence of GET round trips on a fresh cache; one output line (the whole sequence is one guarded call:
+// a hang in the cache keeps its mutex for ever)
+func c19CacheSeq(o *c19Out, max int, reqs []c19CacheReq) {
+	op := map[string]any{"op": "httpcache.seq", "max": max, "reqs": reqs}
+	c19Mark(op)
+	res := c19Guard(func() string {
+		origin := &c19Origin{}
+		rt := NewCachingTransport(origin, max)
+		var parts []string
+		for _, rq := range reqs {
+			origin.next = rq
+			before := origin.calls
+			req, _ := http.NewRequest(http.MethodGet, "http://origin.example"+rq.URL, nil)
+			resp, err := rt.RoundTrip(req)
+			if err != nil {
+				parts = append(parts, "err")
+				continue
+			}
+			body, _ := io.ReadAll(resp.Body)
+			hit := "miss"
+			if origin.calls == before {
+				hit = "hit"
+			}
+			var list []string
+			sum, nList := 0, 0
+			for e := rt.cache.head; e != nil && nList < 1000; e = e.next {
+				list = append(list, fmt.Sprintf("%s:%d", e.requestURL.Path, len(e.responseData)))
+				sum += len(e.responseData)
+				nList++
+			}
+			idx := 0
+			for _, l := range rt.cache.entriesByURL {
+				idx += len(l)
+			}
+			line := fmt.Sprintf("%s cur=%d list=[%s] idx=%d", hit, rt.cache.currentSizeBytes, strings.Join(list, ","), idx)
+			// direct oracles on the implementation's own state (httpcache_size_invariant; no orphans)
+			if rt.cache.currentSizeBytes != sum || rt.cache.currentSizeBytes > max || idx != nList {
+				line += fmt.Sprintf(" INVARIANT-BROKEN(sum=%d max=%d list=%d)", sum, max, nList)
+			}
+			if hit == "miss" && len(body) != rq.Size {
+				line += " INVARIANT-BROKEN(body)"
+			}
+			parts = append(parts, line)
+		}
+		return strings.Join(parts, " | ")
+	})
+	o.emit(op, c19Class(res))
+}
+
+func c19CacheLeg(o *c19Out, replay []map[string]any, isReplay bool) {
+	for _, op := range replay {
+		if op["op"] == "httpcache.seq" {
+			b, _ := json.Marshal(op)
+			var w struct {
+				Max  int           `json:"max"`
+				Reqs []c19CacheReq `json:"reqs"`
+			}
+			if json.Unmarshal(b, &w) == nil {
+				c19CacheSeq(o, w.Max, w.Reqs)
+			}
+		}
+	}
+	if isReplay {
+		return
+	}
+	r := mrand.New(mrand.NewSource(c19Seed()*104729 + 7))
+	const max = 100
+	sizes := []int{0, 1, 30, 49, 50, 51, 99, 100, 101, 200}
+	urls := []string{"/a", "/b", "/c", "/d", "/e"}
+	one := func(kind string, reqs ...c19CacheReq) {
+		o.dist["httpcache.seq:"+kind]++
+		c19CacheSeq(o, max, reqs)
+	}
+	// a single response of every size around maxBytes on the empty cache, then the same after one / two small entries
+	for _, sz := range []int{0, 1, 99, 100, 101} {
+		one("single", c19CacheReq{URL: "/a", Size: sz, Age: 120, Cacheable: true})
+		one("after-small", c19CacheReq{URL: "/a", Size: 1, Age: 60, Cacheable: true}, c19CacheReq{URL: "/b", Size: sz, Age: 120, Cacheable: true})
+		one("after-small-later", c19CacheReq{URL: "/a", Size: 1, Age: 180, Cacheable: true}, c19CacheReq{URL: "/b", Size: sz, Age: 120, Cacheable: true})
+		one("fills-exactly", c19CacheReq{URL: "/a", Size: 100 - sz%100, Age: 60, Cacheable: true}, c19CacheReq{URL: "/b", Size: sz % 100, Age: 120, Cacheable: true}, c19CacheReq{URL: "/c", Size: 1, Age: 180, Cacheable: true})
+		one("expired-then", c19CacheReq{URL: "/a", Size: 10, Cacheable: true, Expired: true}, c19CacheReq{URL: "/b", Size: sz, Age: 120, Cacheable: true}, c19CacheReq{URL: "/a", Size: 10, Age: 60, Cacheable: true})
+	}
+	// many small entries with non-monotone expiry (the insert scan that does not advance), then one that needs all the room
+	var many []c19CacheReq
+	for i, age := range []int{300, 60, 240, 120, 180, 60, 300, 120} {
+		many = append(many, c19CacheReq{URL: fmt.Sprintf("/s%d", i), Size: 12, Age: age, Cacheable: true})
+	}
+	for _, sz := range []int{3, 4, 5, 50, 99, 100} {
+		one("many-small-then", append(append([]c19CacheReq{}, many...), c19CacheReq{URL: "/big", Size: sz, Age: 150, Cacheable: true}, c19CacheReq{URL: "/s1", Size: 12, Age: 60, Cacheable: true})...)
+	}
+	n := c19Env("VERIF_N", 500)
+	for i := 0; i < n; i++ {
+		var reqs []c19CacheReq
+		for k := r.Intn(9) + 1; k > 0; k-- {
+			rq := c19CacheReq{URL: urls[r.Intn(len(urls))], Size: sizes[r.Intn(len(sizes))], Age: 60 * (1 + r.Intn(6)), Cacheable: r.Intn(8) != 0, Expired: r.Intn(8) == 0}
+			if r.Intn(3) == 0 {
+				rq.Size = r.Intn(60)
+			}
+			reqs = append(reqs, rq)
+		}
+		one("rand", reqs...)
+	}
+}
 
 func TestVerifC19(t *testing.T) {
 	dir := os.Getenv("VERIF_OUT")
@@ -104,6 +241,7 @@ func TestVerifC19(t *testing.T) {
 		return "ok"
 	}
 	replay, isReplay := c19ReadOps()
+	c19CacheLeg(o, replay, isReplay)
 	for _, op := range replay {
 		if op["op"] == "x.httpclient.fetch" {
 			in, _ := op["input"].(string)
